@@ -34,6 +34,7 @@ type Params struct {
 	Gates    map[string]bool
 	SetupErr bool
 	RbMax    int  // Consumer.Group.Rebalance.Retry.Max (default of the rig: 2)
+	Ret      bool // Consumer.Offsets.Retention set (commits travel as v2 requests)
 	CoordEnv bool // the environment may make every coordinator lookup fail for a while (env:coord-down / env:coord-up)
 	CleanErr bool
 	CloseAny bool
@@ -53,7 +54,7 @@ func atoi(v url.Values, k string, def int) int {
 func init() {
 	gx.RegisterRig("cg", func(v url.Values) (*gx.Scenario, error) {
 		p := &Params{Members: atoi(v, "m", 1), NParts: atoi(v, "np", 1), N: atoi(v, "n", 2), Mode: v.Get("mode"), NSess: atoi(v, "ns", 1),
-			Strategy: v.Get("strategy"), Init: v.Get("init"), SetupErr: atoi(v, "setuperr", 0) == 1, RbMax: atoi(v, "rbmax", 2), CoordEnv: atoi(v, "coordenv", 0) == 1, CleanErr: atoi(v, "cleanerr", 0) == 1, CloseAny: atoi(v, "closeany", 0) == 1}
+			Strategy: v.Get("strategy"), Init: v.Get("init"), SetupErr: atoi(v, "setuperr", 0) == 1, RbMax: atoi(v, "rbmax", 2), CoordEnv: atoi(v, "coordenv", 0) == 1, Ret: atoi(v, "ret", 0) == 1, CleanErr: atoi(v, "cleanerr", 0) == 1, CloseAny: atoi(v, "closeany", 0) == 1}
 		if p.Mode == "" {
 			p.Mode = "all"
 		}
@@ -310,6 +311,9 @@ func run(c *gx.Ctl, p *Params) *gx.Outcome {
 		conf.Consumer.Offsets.Initial = sarama.OffsetOldest
 		conf.Consumer.Offsets.AutoCommit.Interval = time.Second
 		conf.Consumer.Offsets.Retry.Max = 1
+		if p.Ret {
+			conf.Consumer.Offsets.Retention = time.Hour
+		}
 		conf.Consumer.Group.Heartbeat.Interval = time.Second
 		conf.Consumer.Group.Session.Timeout = 10 * time.Second
 		conf.Consumer.Group.Rebalance.Retry.Max = p.RbMax
